@@ -40,7 +40,13 @@ class Sandbox:
     def fake_log(self):
         return [l.rstrip('\n').split('\t') for l in open(self.log)]
 
-    def place_remote(self, kind):
+    def real_version(self):
+        out = subprocess.run([C.CLI_BIN, '--doer'], stdin=subprocess.DEVNULL, capture_output=True, timeout=20).stdout.decode()
+        line = out.splitlines()[0]
+        assert line.startswith('rjrssync doer v'), line
+        return line[len('rjrssync doer v'):]
+
+    def place_remote(self, kind, version='0.0.1-other'):
         d = os.path.join(self.remote, 'rjrssync'); shutil.rmtree(d, ignore_errors=True)
         if kind == 'absent':
             return
@@ -49,8 +55,9 @@ class Sandbox:
         if kind == 'same':
             shutil.copy(C.CLI_BIN, p)
         elif kind == 'other':
-            open(p, 'w').write('#!/bin/bash\necho "rjrssync doer v0.0.1-other"\necho "rjrssync doer v0.0.1-other" >&2\n'
-                               'cat > "%s/stdin-of-other-version.txt"\n' % self.dir)
+            assert "'" not in version
+            open(p, 'w').write("#!/bin/bash\nprintf '%%s\\n' 'rjrssync doer v%s'\nprintf '%%s\\n' 'rjrssync doer v%s' >&2\n"
+                               'cat > "%s/stdin-of-other-version.txt"\n' % (version, version, self.dir))
         elif kind == 'broken':
             open(p, 'w').write('#!/bin/bash\necho "segfault or whatever" >&2\nexit 3\n')
         os.chmod(p, 0o755)
